@@ -33,6 +33,7 @@ class Gen:
         self.ext = 0
         self.c = 0
         self.deleted_bonds: list[int] = []
+        self.pending: list[list] = []
 
     def fresh_ext(self) -> str:
         self.ext += 1
@@ -88,10 +89,43 @@ class Gen:
         return e
 
     def op(self):
+        if self.pending:
+            return self.pending.pop(0)
         rng, mol = self.rng, self.r.mol
         n = mol.n_atoms
+        nv = len(self.r.views)
         kind = rng.weighted([("add", 10), ("new", 8), ("del", 24), ("con", 10), ("bond", 16), ("bonds", 4),
-                             ("delb", 8), ("rmsub", 6), ("addh", 5), ("addbad", 3), ("readd", 4)])
+                             ("delb", 8), ("rmsub", 6), ("addh", 5), ("addbad", 3), ("readd", 4),
+                             ("mkview", 7 if n else 0), ("vread", 9 if nv else 0), ("vwrite", 8 if nv else 0),
+                             ("pair", 8 if n else 0)])
+        if kind == "mkview":
+            how = rng.weighted([("sub", 5), ("cls", 3), ("heavy", 2)])
+            k = rng.range(0, min(4, n))
+            refs = [self.ref(93) for _ in range(k)]
+            if rng.below(100) < 70:
+                # distinct member atoms, addressed in mixed ways, not in list order
+                mem = self.members()
+                rng.shuffle(mem)
+                refs = []
+                for aid in mem[:k]:
+                    a = self.r.atom_objs[aid]
+                    refs.append("@" + aid if rng.below(2) else "#" + str(mol.atoms.index(a)))
+            return ["mkview", refs, how]
+        if kind == "vread":
+            return ["vread", max(0, nv - 1 - rng.below(min(nv, 3)))]
+        if kind == "vwrite":
+            return ["vwrite", max(0, nv - 1 - rng.below(min(nv, 3))), rng.choice(["assign", "translate", "translate", "scale", "transform"]),
+                    rng.below(1000)]
+        if kind == "pair":
+            # an edit pair that keeps the number of atoms: delete + create (either order), usually followed by a use of a view
+            d = ["del", "#" + str(rng.below(n))] if rng.below(100) < 70 else ["del", self.ref(95)]
+            c = ["new", rng.choice([1, 6, 7, 8]), None, self.fresh_xyz()] if rng.below(2) else \
+                ["add", self.fresh_ext(), 6, None, self.fresh_xyz(), None]
+            seq = [d, c] if rng.below(100) < 65 else [c, d]
+            if nv and rng.below(100) < 80:
+                seq.append(["vread", nv - 1] if rng.below(2) else ["vwrite", nv - 1, "translate", rng.below(1000)])
+            self.pending = seq[1:]
+            return seq[0]
         if kind == "add":
             q = None if rng.below(2) == 0 or self.r.kind == "s" else 0.01 * (self.c + 1)
             return ["add", self.fresh_ext(), rng.choice([1, 6, 7, 8, 16]), rng.choice([None, f"A{self.ext}", "DUP"]),
@@ -228,7 +262,7 @@ def nontrivial(res) -> bool:
             continue
         if op[0] in ("add", "new", "bond", "bonds", "addh", "readd"):
             added = True
-        if op[0] in ("del", "rmsub") and added:
+        if op[0] in ("del", "rmsub", "vread", "vwrite") and added:
             return True
     return False
 
@@ -252,7 +286,112 @@ def alphabet(big: bool):
     def delb(k): return ["delb", 4]
     def new(k): return ["new", 8, None, [30.0 + k, 1.0, 2.0]]
     def addh(k): return ["addh", ["o0"]]
-    return base + [del_obj, del_label, delb, new, addh]
+    def mkview(k): return ["mkview", ["#1", "@o3"], "sub"]
+    def vread(k): return ["vread", 0]
+    def vwrite(k): return ["vwrite", 0, "translate", k]
+    return base + [del_obj, del_label, delb, new, addh, mkview, vread, vwrite]
+
+
+# ----------------------------------------------------------------------------------------------------------
+# Conformer views held across edits of their ensemble (oracle only; the ensemble model is property C14's)
+# ----------------------------------------------------------------------------------------------------------
+def ens_history(ctx, case_seed):
+    """conformer views c_i = ens[i] are made once and KEPT; the ensemble is then edited (append / extend conformers, translate,
+    scale, assignment) and written through the views; after every step every kept view must show the coordinates and charges of
+    its own conformer (reference keyed by conformer index) and its atoms must be the ensemble's atoms"""
+    import warnings
+
+    import numpy as np
+    import molli as ml
+
+    rng = common.Prng(case_seed)
+    n = rng.range(1, 5)
+    base = ml.Molecule(n_atoms=n)
+    for i in range(1, n):
+        base.connect(rng.below(i), i)
+    k = rng.range(1, 3)
+    ens = ml.ConformerEnsemble(base, n_conformers=k)
+    ref_c = [np.array([[10.0 * c + a, 0.5 * a, -1.0 * c] for a in range(n)]) for c in range(k)]
+    ref_q = [np.array([0.125 * (c + 1) + a for a in range(n)]) for c in range(k)]
+    ens.coords = np.array(ref_c)
+    ens.atomic_charges = np.array(ref_q)
+    held = {}
+    ops, viol = [], []
+    tag = {"case": "conformer-views", "case_seed": case_seed}
+
+    def geom(j):
+        g = ml.Molecule(base)
+        g.coords = np.array([[100.0 * j + a, 1.0, 2.0 + a] for a in range(n)])
+        g.atomic_charges = np.array([0.5 * j + a for a in range(n)])
+        return g
+
+    for step in range(rng.range(4, 14)):
+        nconf = len(ref_c)
+        op = rng.weighted([("hold", 4), ("append", 3), ("extend", 2), ("translate", 2), ("scale", 1), ("c.assign", 3),
+                           ("c.translate", 3), ("c.charges", 2), ("e.assign", 1)])
+        ops.append(op)
+        try:
+            with warnings.catch_warnings():
+                warnings.simplefilter("ignore")
+                if op == "hold":
+                    i = rng.below(nconf)
+                    held.setdefault(i, []).append(ens[i] if rng.below(2) else ens[i:i + 1][0])
+                elif op == "append":
+                    g = geom(step)
+                    ens.append(g)
+                    ref_c.append(np.array(g.coords)); ref_q.append(np.array(g.atomic_charges))
+                elif op == "extend":
+                    gs = [geom(step), geom(step + 50)]
+                    ens.extend(gs)
+                    for g in gs:
+                        ref_c.append(np.array(g.coords)); ref_q.append(np.array(g.atomic_charges))
+                elif op == "translate":
+                    v = np.array([1.0, -2.0, 0.5]); ens.translate(v)
+                    ref_c = [c + v for c in ref_c]
+                elif op == "scale":
+                    ens.scale(2.0)
+                    ref_c = [c * 2.0 for c in ref_c]
+                elif op == "e.assign":
+                    i = rng.below(nconf)
+                    new = np.array([[7.0 * step + a, 3.0, -a] for a in range(n)])
+                    ens.coords[i] = new
+                    ref_c[i] = new
+                elif held:
+                    i = rng.choice(sorted(held))
+                    cf = rng.choice(held[i])
+                    if op == "c.assign":
+                        new = np.array([[9.0 * step + a, -3.0, a] for a in range(n)])
+                        cf.coords = new
+                        ref_c[i] = new
+                    elif op == "c.translate":
+                        v = np.array([0.5, 0.25, -1.0]); cf.translate(v)
+                        ref_c[i] = ref_c[i] + v
+                    else:
+                        q = np.array([0.0625 * step + a for a in range(n)])
+                        cf.atomic_charges = q
+                        ref_q[i] = q
+        except Exception as e:
+            viol.append(("C05:conformer-view-unusable", f"{op} raised {type(e).__name__}: {str(e)[:60]} [ops {ops}]"))
+            break
+        bad = None
+        for i, cfs in held.items():
+            for cf in cfs:
+                try:
+                    if cf.atoms is not ens.atoms and list(cf.atoms) != list(ens.atoms):
+                        bad = f"conformer {i}: atoms are not the ensemble's"
+                    elif not np.array_equal(np.asarray(cf.coords), ref_c[i]) or not np.array_equal(np.asarray(ens.coords[i]), ref_c[i]):
+                        bad = f"conformer {i}: coordinates are not those it was given"
+                    elif not np.array_equal(np.asarray(cf.atomic_charges), ref_q[i]):
+                        bad = f"conformer {i}: partial charges are not those it was given"
+                except Exception as e:
+                    bad = f"conformer {i}: reading through the kept view raised {type(e).__name__}"
+        if bad is None and (ens.coords.shape != (len(ref_c), n, 3) or ens.atomic_charges.shape != (len(ref_c), n)):
+            bad = f"ensemble arrays have shapes {ens.coords.shape} / {ens.atomic_charges.shape} for {len(ref_c)} conformers of {n} atoms"
+        if bad:
+            viol.append(("C05:conformer-view-misaligned", f"after {op}: {bad} [ops {ops}]"))
+            break
+    ctx.count("conformer_view_steps", len(ops))
+    return viol, tag, ops
 
 
 # ----------------------------------------------------------------------------------------------------------
@@ -279,6 +418,8 @@ def compare(ctx, res, mline):
             return False
         fields = ["A", "R", "B"] + (["Q"] if res["kind"] == "m" else [])
         diff = [f for f in fields if snap[f] != mstate[f]]
+        if snap.get("X") != mstate.get("X"):
+            diff.append("X")
         # add_implicit_hydrogens: whether the routine raises is decided by property C16; the model op
         # takes the hydrogens that were in fact added, so only the state is compared for it
         if out != mout and not (i > 0 and res["ops"][i - 1][0] == "addh"):
@@ -344,8 +485,8 @@ def run(ctx):
         else:
             try:
                 res = run_history(kind, start, ops=ops)
-            except KeyError:
-                continue  # exhaustive sequence addressing an object that does not exist (e.g. bond 4 never made)
+            except (KeyError, IndexError):
+                continue  # exhaustive sequence addressing an object that does not exist (e.g. bond 4 / view 0 never made)
         results.append(res)
         lines.append(";".join([res["init"]] + res["tokens"]))
         ctx.case(f"{kind}:{start}:{lines[-1]}", nontrivial=nontrivial(res))
@@ -363,6 +504,17 @@ def run(ctx):
                 ctx.violation(k, what + f" [{kind}/{start}, step {step}]", shrink(res, k))
         if len(ctx.samples) < 3 and src == "rand" and nontrivial(res):
             ctx.sample({"kind": kind, "start": start, "request": lines[-1][:600], "outs": res["outs"]})
+
+    # ---- Conformer views held across edits of their ensemble (oracle only)
+    for _ in range(60 if ctx.quick() else 2000):
+        cs = ctx.rng.next() >> 16
+        viol, tag, eops = ens_history(ctx, cs)
+        ctx.case(f"ensviews:{cs}:{eops}", nontrivial=any(o.startswith("c.") for o in eops) and any(o in ("append", "extend") for o in eops))
+        ctx.count("source=conformer-views")
+        for k, what in viol:
+            if k not in seen_kinds:
+                seen_kinds.add(k)
+                ctx.violation(k, what, tag)
 
     # ---- model side
     outs = ctx.driver(lines)
@@ -382,6 +534,14 @@ def replay(ctx, path):
     obj = json.loads(Path(path).read_text())
     print(json.dumps(obj, indent=1)[:3000])
     r = obj.get("replay") or obj
+    if r.get("case") == "conformer-views":
+        class _C:
+            def count(self, *a, **k):
+                pass
+        viol, _, eops = ens_history(_C(), r["case_seed"])
+        print("ops:", eops)
+        print("violations:", viol)
+        return 1 if viol else 0
     if "ops" in r:
         res = run_history(r["kind"], r["start"], ops=r["ops"])
         print("outs on the real code:", res["outs"])
